@@ -119,7 +119,7 @@ def gen_cases(tier, seed):
         case['calls'] = [{'root': 0, 'nest': None, 'trim': None,
                           'root_by_arg': False} for _ in range(20)]
         yield case
-    n = 1200 if tier == 'quick' else 16 * 5000
+    n = 2000 if tier == 'quick' else 16 * 5000
     for i in range(n):
         case = gen_one(random.Random(f'C16/{seed}/{tier}/{i}'), tier)
         # the factory may build handles that are falsy objects
